@@ -7,6 +7,7 @@ package main
 //   `u` (HAProxyUpdate) and `q` (reload queue run = Instance.Reload) carries at most one fault:
 //     tm  a tcp sni map file          fm  _front_bind_crt.list (first file of WriteFrontendMaps)
 //     cl  the tcp crt-list            mc  haproxy.cfg             sh<k>  haproxy5-backend<k>.cfg
+//     ef  errorfiles/503.http         lr  lua/responses.lua  (the custom HTTP response files, `G<lua>.<ha>` sets them)
 //     bm  the first backend map (no backend of this mode needs ACLs: never fires here, see world mode)
 //     ad<i>+<j>..  admin socket error on these Sends of the update   ab<i>+..  bad answer instead
 //     rs  reload command fails on the master socket      rr  reload accepted, worker fails
@@ -21,7 +22,11 @@ package main
 //   step writes; see c12worldRun below.
 //
 // The six finding signatures of the oracle (Drv/C12.lean) are `fixed:` entries of known-findings.txt
-// (repo commits 5b084c3, 17543b6); their replays stay in c12instCorpus / c12worldCorpus.
+// (repo commits 5b084c3, 17543b6); their replays stay in c12instCorpus / c12worldCorpus.  Two more
+// signatures belong to the custom response files: change-lost-after-failed-response-write (a response
+// file named by haproxy.cfg does not hold the rendering of the global config after the fault-free retry)
+// and reload-fails-forever-cfg-names-missing-file (haproxy.cfg names an errorfile / responses.lua that
+// does not exist and the retries keep failing); the code as it is shows neither.
 
 import (
 	"context"
@@ -105,6 +110,7 @@ type c12inst struct {
 	// what the simulated HAProxy read at its last successful reload, for the files `world.Sim` does not keep
 	runMaps string
 	runTcp  string
+	runResp string
 	reloads int
 	owed    bool // the last HAProxyUpdate returned before it was past writeConfig (instance.rewriteOwed)
 }
@@ -125,6 +131,7 @@ func newC12inst(queue bool, n int, names []int) *c12inst {
 	}
 	e.log = &hvutil.Logger{Keep: os.Getenv("C12_LOG") != ""}
 	e.sim = world.NewSim(e.cfgDir)
+	e.sim.PreLoad = c12checkRefs
 	opt := haproxy.InstanceOptions{
 		RootFSPrefix:   "/repo/rootfs",
 		LocalFSPrefix:  dir,
@@ -179,6 +186,55 @@ func (e *c12inst) setTCP(v int) {
 	}
 	port.CustomConfig = []string{fmt.Sprintf("log-format v%d", v)}
 	e.tcp = v
+}
+
+// custom HTTP responses of the global config: l = content of the Lua based response `send-404`
+// (http-response-404), h = content of the HAProxy based response 503 (http-response-503); 0 = not configured.
+// The content is the value of a header X-V.
+func c12response(name string, code int, reason string, v int) hatypes.HTTPResponse {
+	return hatypes.HTTPResponse{Name: name, StatusCode: code, StatusReason: reason,
+		Headers: []hatypes.HTTPHeader{{Name: "Content-Length", Value: "0"}, {Name: "X-V", Value: strconv.Itoa(v)}}}
+}
+
+func (e *c12inst) setGlobal(l, h int) {
+	g := e.inst.Config().Global()
+	g.CustomHTTPLuaResponses, g.CustomHTTPHAResponses = nil, nil
+	if l != 0 {
+		g.CustomHTTPLuaResponses = []hatypes.HTTPResponse{c12response("send-404", 404, "Not Found", l)}
+	}
+	if h != 0 {
+		g.CustomHTTPHAResponses = []hatypes.HTTPResponse{c12response("503", 503, "Service Unavailable", h)}
+	}
+}
+
+var c12reErrorfile = regexp.MustCompile(`(?m)^\s*errorfile\s+(\d+)\s+(\S+)`)
+var c12reLuaLoad = regexp.MustCompile(`(?m)^\s*lua-load\s+(\S*/responses\.lua)\s*$`)
+
+// c12refs: the response files haproxy.cfg names, as paths below the configuration directory
+func c12refs(cfgDir string) []string {
+	data, err := os.ReadFile(filepath.Join(cfgDir, "haproxy.cfg"))
+	if err != nil {
+		return nil
+	}
+	var res []string
+	for _, m := range c12reErrorfile.FindAllStringSubmatch(string(data), -1) {
+		res = append(res, "errorfiles/"+filepath.Base(m[2]))
+	}
+	if c12reLuaLoad.Match(data) {
+		res = append(res, "lua/responses.lua")
+	}
+	return res
+}
+
+// c12checkRefs (world.Sim.PreLoad): HAProxy refuses a configuration that names an errorfile or a Lua
+// script that does not exist
+func c12checkRefs(cfgDir string) error {
+	for _, rel := range c12refs(cfgDir) {
+		if st, err := os.Stat(filepath.Join(cfgDir, rel)); err != nil || !st.Mode().IsRegular() {
+			return fmt.Errorf("haproxy.cfg names %s, which does not exist", rel)
+		}
+	}
+	return nil
 }
 
 // ---- faults
@@ -277,6 +333,10 @@ func (e *c12inst) arm(f c12fault) (restore func()) {
 		undo = append(undo, c12block(filepath.Join(e.cfgDir, fmt.Sprintf("crtlist_tcp_%d.list", c12tcpPort))))
 	case "mc":
 		undo = append(undo, c12block(filepath.Join(e.cfgDir, "haproxy.cfg")))
+	case "ef":
+		undo = append(undo, c12block(filepath.Join(e.cfgDir, "errorfiles/503.http")))
+	case "lr":
+		undo = append(undo, c12block(filepath.Join(e.cfgDir, "lua/responses.lua")))
 	case "sh":
 		// a directory named *.cfg that is still there at reload time would make the simulated HAProxy
 		// refuse the configuration: block the file only when this update is going to write it
@@ -472,6 +532,52 @@ func (e *c12inst) diskTcp() string {
 	return fmt.Sprintf("%d.%d.%d", m, crt, main)
 }
 
+var c12reXV = regexp.MustCompile(`X-V(?:: |", ")(\d+)`)
+
+func c12respFile(path string) string {
+	data, err := os.ReadFile(path)
+	if err != nil {
+		return "-"
+	}
+	return strconv.Itoa(c12first(c12reXV, string(data)))
+}
+
+// response files: <errorfiles/503.http>.<lua/responses.lua>.<haproxy.cfg names the errorfile>; `-` = no such file.
+// loaded: what HAProxy reads (the errorfile only when haproxy.cfg names it)
+func (e *c12inst) diskResp(loaded bool) string {
+	main := "-"
+	if data, err := os.ReadFile(filepath.Join(e.cfgDir, "haproxy.cfg")); err == nil {
+		main = "0"
+		for _, m := range c12reErrorfile.FindAllStringSubmatch(string(data), -1) {
+			if m[1] == "503" {
+				main = "1"
+			}
+		}
+	}
+	ha := c12respFile(filepath.Join(e.cfgDir, "errorfiles/503.http"))
+	if loaded && main != "1" {
+		ha = "-"
+	}
+	return ha + "." + c12respFile(filepath.Join(e.cfgDir, "lua/responses.lua")) + "." + main
+}
+
+// custom responses held by the in-memory model: <lua>.<ha>
+func (e *c12inst) globResp() string {
+	g := e.inst.Config().Global()
+	v := func(l []hatypes.HTTPResponse) int {
+		for _, r := range l {
+			for _, h := range r.Headers {
+				if h.Name == "X-V" {
+					n, _ := strconv.Atoi(h.Value)
+					return n
+				}
+			}
+		}
+		return 0
+	}
+	return fmt.Sprintf("%d.%d", v(g.CustomHTTPLuaResponses), v(g.CustomHTTPHAResponses))
+}
+
 // running backends: configuration as loaded at the last reload + the server table as changed by
 // runtime commands since
 func (e *c12inst) running() string {
@@ -566,11 +672,11 @@ func (e *c12inst) tcpWant() int {
 	return 0
 }
 
-// c12obs: e<err>|<items>|<hosts>|<tcp want>|<file=ents,...>|<maps>|<tcp>|<running backends>|<running maps>|<running tcp>|<pending>
+// c12obs: e<err>|<items>|<hosts>|<tcp want>|<file=ents,...>|<maps>|<tcp>|<running backends>|<running maps>|<running tcp>|<pending>|<global responses>|<response files>|<response files as loaded>
 func (e *c12inst) obs(err error) string {
 	if e.sim.Reloads != e.reloads {
 		e.reloads = e.sim.Reloads
-		e.runMaps, e.runTcp = e.diskMaps(), e.diskTcp()
+		e.runMaps, e.runTcp, e.runResp = e.diskMaps(), e.diskTcp(), e.diskResp(true)
 	}
 	d := e.diskBackends()
 	files := e.n
@@ -608,7 +714,12 @@ func (e *c12inst) obs(err error) string {
 	if rt == "" {
 		rt = "0.0.0"
 	}
-	return strings.Join([]string{ev, e.items(), e.hosts(), strconv.Itoa(e.tcpWant()), strings.Join(fs, ","), e.diskMaps(), e.diskTcp(), e.running(), rm, rt, pend}, "|")
+	rr := e.runResp
+	if rr == "" {
+		rr = "-.-.-"
+	}
+	return strings.Join([]string{ev, e.items(), e.hosts(), strconv.Itoa(e.tcpWant()), strings.Join(fs, ","), e.diskMaps(), e.diskTcp(), e.running(), rm, rt, pend,
+		e.globResp(), e.diskResp(false), rr}, "|")
 }
 
 func (e *c12inst) update(f c12fault) string {
@@ -777,6 +888,11 @@ func c12instRun(queue bool, n int, names, shardOf []int, ops []string) c12res {
 			case op[0] == 'T':
 				v, _ := strconv.Atoi(op[1:])
 				e.setTCP(v)
+			case op[0] == 'G':
+				f := strings.Split(op[1:], ".")
+				l, _ := strconv.Atoi(f[0])
+				h, _ := strconv.Atoi(f[1])
+				e.setGlobal(l, h)
 			default:
 				panic("bad op " + op)
 			}
@@ -794,7 +910,7 @@ func c12instRun(queue bool, n int, names, shardOf []int, ops []string) c12res {
 
 // ---- inst generators
 
-var c12faults = []string{"tm", "fm", "bm", "cl", "mc", "sh0", "sh1", "sh2", "rs", "rr", "ad0", "ab0", "ad0+1+2+3+4+5+6+7+8+9", "ad1"}
+var c12faults = []string{"tm", "fm", "bm", "cl", "ef", "lr", "mc", "sh0", "sh1", "sh2", "rs", "rr", "ad0", "ab0", "ad0+1+2+3+4+5+6+7+8+9", "ad1"}
 
 // c12world0 is the harness' picture of what the controller should hold (the "cluster")
 type c12state struct {
@@ -802,7 +918,23 @@ type c12state struct {
 	back  map[int][2]int // live backends: cfg, slots
 	host  map[int]int
 	tcp   int
-	hosts bool // a host was declared once: host 0 stays
+	hosts bool   // a host was declared once: host 0 stays
+	glob  [2]int // custom responses of the global config: lua, ha (0 = not configured)
+}
+
+// c12globOp: the converter fills the global config inside a full resync (and before the very first update):
+// the custom responses stay, change, appear or go away
+func c12globOp(r *gen.Rng, st *c12state) string {
+	switch r.Intn(6) {
+	case 0: // unchanged
+	case 1, 2:
+		st.glob[0] = r.Range(0, 3)
+	case 3, 4:
+		st.glob[1] = r.Range(0, 3)
+	case 5:
+		st.glob = [2]int{r.Range(0, 3), r.Range(0, 3)}
+	}
+	return fmt.Sprintf("G%d.%d", st.glob[0], st.glob[1])
 }
 
 // c12batch appends one resync batch (discipline of converters.Sync: removes first, then the adds) and
@@ -834,6 +966,12 @@ func c12batch(r *gen.Rng, st *c12state, ops []string, full bool) []string {
 				st.tcp = r.Range(1, 4)
 			}
 			ops = append(ops, fmt.Sprintf("T%d", st.tcp))
+		}
+		// config.Clear() made a new Global: without the op the custom responses are gone
+		if st.glob != [2]int{} && r.Chance(1, 8) {
+			st.glob = [2]int{}
+		} else {
+			ops = append(ops, c12globOp(r, st))
 		}
 		return ops
 	}
@@ -939,7 +1077,10 @@ func c12instRandom(j *c12jobs, r *gen.Rng, count int) {
 		nb := r.Range(2, 6)
 		for b := 0; b < nb; b++ {
 			before := len(ops)
-			ops = c12batch(r, st, ops, b > 0 && r.Chance(1, 8))
+			if b == 0 && r.Chance(1, 2) {
+				ops = append(ops, c12globOp(r, st))
+			}
+			ops = c12batch(r, st, ops, b > 0 && r.Chance(1, 6))
 			readds := 0
 			for _, o := range ops[before:] {
 				if o[0] == 'a' {
@@ -999,15 +1140,20 @@ func c12instExhaustive(j *c12jobs, all bool) {
 		"tcp":         {"T2"},
 		"all":         {"r0", "a0.8.0", "R0", "H0.2", "T2"},
 		"none":        {},
-		"full-same":   {"F", "a0.4.0", "a1.4.0", "H0.1", "T1"},
-		"full-change": {"F", "a0.8.0", "a1.4.0", "H0.2", "T2"},
+		"full-same":   {"F", "a0.4.0", "a1.4.0", "H0.1", "T1", "G1.0"},
+		"full-change": {"F", "a0.8.0", "a1.4.0", "H0.2", "T2", "G1.0"},
+		// the global ConfigMap changed: another Lua based response, a HAProxy based response appears, both, none left
+		"full-lua":    {"F", "a0.4.0", "a1.4.0", "H0.1", "T1", "G2.0"},
+		"full-ha-add": {"F", "a0.4.0", "a1.4.0", "H0.1", "T1", "G1.3"},
+		"full-resp":   {"F", "a0.4.0", "a1.4.0", "H0.1", "T1", "G2.3"},
+		"full-noresp": {"F", "a0.4.0", "a1.4.0", "H0.1", "T1"},
 	}
 	keys := make([]string, 0, len(changes))
 	for k := range changes {
 		keys = append(keys, k)
 	}
 	sort.Strings(keys)
-	faults := []string{"", "tm", "fm", "bm", "cl", "mc", "sh0", "sh2", "rs", "rr", "ad0", "ab0", "ad1", "ad0+1"}
+	faults := []string{"", "tm", "fm", "bm", "cl", "ef", "lr", "mc", "sh0", "sh2", "rs", "rr", "ad0", "ab0", "ad1", "ad0+1"}
 	for _, queue := range []bool{false, true} {
 		for _, n := range []int{0, 3} {
 			for _, k := range keys {
@@ -1026,7 +1172,7 @@ func c12instExhaustive(j *c12jobs, all bool) {
 							// first: the fault hits the very first update (no committed data yet)
 							var ops []string
 							if !first {
-								ops = append(ops, "a0.4.0", "a1.4.0", "H0.1", "T1", "u")
+								ops = append(ops, "a0.4.0", "a1.4.0", "H0.1", "T1", "G1.0", "u")
 								if queue {
 									ops = append(ops, "q")
 								}
@@ -1035,7 +1181,7 @@ func c12instExhaustive(j *c12jobs, all bool) {
 								if k != "all" && k != "back-add" {
 									continue
 								}
-								ops = append(ops, "a0.4.0", "a1.4.0", "H0.1", "T1")
+								ops = append(ops, "a0.4.0", "a1.4.0", "H0.1", "T1", "G1.3")
 							}
 							uf := "u"
 							if f != "" {
@@ -1065,7 +1211,7 @@ func c12instExhaustive(j *c12jobs, all bool) {
 							c12instCase(j, queue, n, c05patterns[n][:4], ops)
 							// the retry is not an empty update but the next event: a change of another backend that
 							// runtime commands can express (address of backend 1), then an empty update
-							if !first && k != "back-del" && k != "back-2addr" && k != "full-same" && k != "full-change" && k != "all" {
+							if !first && k != "back-del" && k != "back-2addr" && !strings.HasPrefix(k, "full-") && k != "all" {
 								ops = append(base, "r1", "a1.5.0", "u")
 								if queue {
 									ops = append(ops, "q")
@@ -1108,6 +1254,24 @@ func c12instCorpus(j *c12jobs) {
 		"0 0 0.0 a0.4.0,u,r0,a0.8.0,u:rr,u",
 		// queue_does_not_help_a_failed_write
 		"1 0 0.0 a0.4.0,u,q,r0,a0.8.0,u:mc,u,q",
+		// non-vacuity of retry_converges_resp: new Lua response and new errorfile; frontend maps, errorfile, responses.lua fail in turn
+		"0 0 0.0 H0.1,G1.0,u,F,H0.1,G2.7,u:fm,u:ef,u:lr,u",
+		// non-vacuity of retry_converges_queue_resp
+		"1 0 0.0 a0.4.0,G1.0,u,q,F,a0.4.0,G1.3,u:lr,q:rs,u,q",
+		// gated_response_files_lose_the_change (change-lost-after-failed-response-write): a changed Lua response, the
+		// update fails before writeConfig; the retry and every later update must write responses.lua
+		"0 0 0.0 H0.1,G1.0,u,F,H0.1,G2.0,u:fm,u,R0,H0.2,u,u",
+		// gated_response_files_break_every_reload (reload-fails-forever-cfg-names-missing-file): an added errorfile
+		"0 0 0.0 H0.1,u,F,H0.1,G0.1,u:fm,u,u,u",
+		// the very first update fails: responses.lua must exist before the first haproxy.cfg is loaded
+		"0 0 0.0 H0.1,u:fm,u",
+		// the same two at the other early fault points (tcp maps, crt-list), with shards, with a reload queue
+		"0 0 0.0 T1,G1.0,u,F,T2,G2.1,u:tm,u",
+		"0 0 0.0 T1,G1.0,u,F,T1,G2.1,u:cl,u",
+		"0 3 2.0 a0.4.0,a1.4.0,G1.0,u,F,a0.4.0,a1.4.0,G2.1,u:sh0,u",
+		"1 0 0.0 H0.1,G1.0,u,q,F,H0.1,G2.1,u:fm,u,q",
+		// an errorfile that is not configured any more stays on disk, unreferenced; configured again later
+		"0 0 0.0 H0.1,G1.3,u,F,H0.1,G1.0,u:lr,u,F,H0.1,G1.4,u:ef,u",
 		// --- more
 		"0 0 0.0 a0.4.0,H0.1,u:mc,u",
 		"0 0 0.0 a0.4.0,H0.1,T1,u,T2,u:tm,u,T3,u:cl,u,T4,u:mc,u",
@@ -1148,6 +1312,18 @@ func c12worldCorpus(j *c12jobs) {
 		"s0 2:F=cfg/haproxy.cfg sync sync ing+d/i1@4!haproxy,-!app-root=/app!a.local>/a/b:Exact:web:9999!-!- sync sync sync",
 		"s3 1:F=cfg/haproxy.cfg sec+e/tls1!tls!1!a.local+b.local ing+e/i5@2!haproxy,-!-!-!a.local>tls1!- sync ing~e/i5@2!haproxy,-!-!-!-!- sync sync sync",
 		"s3 1:F=cfg/haproxy5-backend000.cfg svc+e/api!http:80:8080+adm:81:adm!- ing+e/i3@1!haproxy,-!-!_>/b:_:api:80!-!- sync ing-e/i3 sync sync sync",
+		// custom responses (global ConfigMap): a changed Lua based response / an added HAProxy based one, the update fails
+		// before writeConfig (frontend crt-list), at spoe-modsecurity.conf, at the errorfile, at responses.lua, at haproxy.cfg
+		"s0 1:F=maps/_front_bind_crt.list cm~http-response-404=X-V:1 sync cm~http-response-404=X-V:2 sync sync sync",
+		"s0 1:F=maps/_front_bind_crt.list sync cm~http-response-503=X-V:1 sync sync sync",
+		"s0 1:F=cfg/spoe-modsecurity.conf cm~http-response-404=X-V:1 sync cm~http-response-404=X-V:2;http-response-503=X-V:1 sync sync sync",
+		"s0 1:F=cfg/errorfiles/503.http sync cm~http-response-503=X-V:1 sync sync sync",
+		"s0 1:F=cfg/lua/responses.lua cm~http-response-404=X-V:1 sync cm~http-response-404=X-V:2;http-response-503=X-V:1 sync sync sync",
+		"s3 1:F=cfg/haproxy.cfg,2:F=cfg/haproxy.cfg cm~http-response-503=X-V:1 sync cm~http-response-404=X-V:2;http-response-503=X-V:2 sync sync sync sync",
+		// the very first reconcile fails: responses.lua must exist when the first haproxy.cfg is loaded
+		"s0 0:F=maps/_front_bind_crt.list sync sync sync",
+		// the errorfile goes away (the file stays, unreferenced) and comes back with another content
+		"s0 2:F=maps/_front_bind_crt.list cm~http-response-503=X-V:1 sync cm~- sync cm~http-response-503=X-V:2 sync sync sync",
 		// direct reload: request / result
 		"s3 1:RS sync ing+d/i4@1!haproxy,-!-!_>/a/b:_:api:http!-!- sync sync sync",
 		"s0 1:RF sync ing+d/i4@1!haproxy,-!-!_>/a/b:_:api:http!-!- sync sync sync",
@@ -1168,7 +1344,7 @@ func c12worldCorpus(j *c12jobs) {
 // ---------------------------------------------------------------------------------------------
 // world mode
 //
-//   C12 world s<shards> <script> <op> <op> ... => T:<step>;<step>..|E:<e>,<e>..|d=<files>|u=<files>|ut=<files>|tbl=..|tblt=..|snap=..|tf=..
+//   C12 world s<shards> <script> <op> <op> ... => T:<step>;<step>..|E:<e>,<e>..|d=<files>|u=<files>|ut=<files>|tbl=..|tblt=..|snap=..|tf=..|rf=<files>|mf=<files>
 //
 // <script>: `-` or `<sync index>:<fault>` joined by `,`; faults: `F=<file>+<file>..` (these files, relative
 // to the controller's directory, cannot be written during that reconcile), `RS` (reload command fails),
@@ -1187,6 +1363,11 @@ func c12worldCorpus(j *c12jobs) {
 // faulty controller whose content differs from what its HAProxy read at the last successful reload
 // (server lines left out: they are compared through the running server table, tbl=eq|diff);
 // snap= semantic normal form faulty vs twin; tf= twin vs a fresh controller on the final state.
+// rf= the custom response files named by the faulty controller's haproxy.cfg (`errorfile <code> <file>`,
+// `lua-load .../responses.lua`) whose content differs from the twin's (the normal form does not look into
+// them); mf= the ones that do not exist (the simulated HAProxy refuses such a configuration: `c12checkRefs`).
+// Histories change the custom responses through the global ConfigMap (`cm~http-response-404=X-V:<n>` Lua
+// based, `http-response-503` HAProxy based; see c12addResponses).
 
 type c12wfault struct {
 	files []string
@@ -1433,6 +1614,8 @@ type c12wrun struct {
 	tblt    string
 	snap    string
 	tf      string
+	rdiff   []string
+	rmiss   []string
 	fail    string
 }
 
@@ -1451,8 +1634,8 @@ func (r c12wrun) text() string {
 	for i, s := range r.steps {
 		st[i] = s.text()
 	}
-	return fmt.Sprintf("T:%s|E:%s|d=%s|u=%s|ut=%s|tbl=%s|tblt=%s|snap=%s|tf=%s", strings.Join(st, ";"), strings.Join(r.errs, ","),
-		joinOr(r.diff), joinOr(r.unload), joinOr(r.tunload), r.tbl, r.tblt, r.snap, r.tf)
+	return fmt.Sprintf("T:%s|E:%s|d=%s|u=%s|ut=%s|tbl=%s|tblt=%s|snap=%s|tf=%s|rf=%s|mf=%s", strings.Join(st, ";"), strings.Join(r.errs, ","),
+		joinOr(r.diff), joinOr(r.unload), joinOr(r.tunload), r.tbl, r.tblt, r.snap, r.tf, joinOr(r.rdiff), joinOr(r.rmiss))
 }
 
 func c12firstDiff(a, b string) string {
@@ -1496,6 +1679,7 @@ func c12worldRun(shards int, script map[int]c12wfault, ops []string, withFresh b
 		return
 	}
 	defer faulty.Close()
+	twin.Sim.PreLoad, faulty.Sim.PreLoad = c12checkRefs, c12checkRefs
 	td, fd := c12dirsOf(twin), c12dirsOf(faulty)
 	loaded := map[string]string{}  // what the faulty controller's HAProxy read at its last successful reload
 	tloaded := map[string]string{} // the same for the twin
@@ -1628,6 +1812,18 @@ func c12worldRun(shards int, script map[int]c12wfault, ops []string, withFresh b
 			res.tunload = append(res.tunload, f)
 		}
 	}
+	// the response files haproxy.cfg names
+	for _, ref := range c12refs(faulty.CfgDir) {
+		rel := "cfg/" + ref
+		a, oka := c12content(td, rel, false)
+		b, okb := c12content(fd, rel, false)
+		if !okb {
+			res.rmiss = append(res.rmiss, rel)
+		}
+		if !okb || !oka || a != b {
+			res.rdiff = append(res.rdiff, rel)
+		}
+	}
 	// backends without servers are left out: they exist in the table as soon as their file is read
 	withServers := func(t []string) string {
 		var keep []string
@@ -1659,6 +1855,7 @@ func c12worldRun(shards int, script map[int]c12wfault, ops []string, withFresh b
 		res.tf = "eq"
 		fresh, err := world.NewPipeline(wt, opt)
 		if err == nil {
+			fresh.Sim.PreLoad = c12checkRefs
 			fresh.Startup()
 			if _, err := fresh.Reconcile(); err != nil {
 				res.tf = "err"
@@ -1710,6 +1907,74 @@ func c12worldCase(j *c12jobs, shards int, script string, ops []string) {
 	})
 }
 
+// c12addResponses rewrites a generated history so that the global ConfigMap also carries custom HTTP
+// responses: `http-response-404` (Lua based, lua/responses.lua) changes, `http-response-503` (HAProxy based,
+// errorfiles/503.http + an `errorfile` line of haproxy.cfg) appears, changes and goes away. Returns the
+// indexes of the reconciles that see such a change.
+func c12addResponses(r *gen.Rng, hist []string) ([]string, []int) {
+	base := "-"        // the other keys of the ConfigMap, as generated
+	resp := [2]int{}   // 404, 503; 0 = key absent
+	text := func() string {
+		var kv []string
+		if base != "-" && base != "" {
+			kv = append(kv, base)
+		}
+		if resp[0] != 0 {
+			kv = append(kv, fmt.Sprintf("http-response-404=X-V:%d", resp[0]))
+		}
+		if resp[1] != 0 {
+			kv = append(kv, fmt.Sprintf("http-response-503=X-V:%d", resp[1]))
+		}
+		if len(kv) == 0 {
+			return "cm~-"
+		}
+		return "cm~" + strings.Join(kv, ";")
+	}
+	change := func() {
+		switch r.Intn(4) {
+		case 0:
+			resp[0] = (resp[0] + r.Range(1, 3)) % 4
+		case 1, 2:
+			resp[1] = (resp[1] + r.Range(1, 3)) % 4
+		case 3:
+			resp = [2]int{r.Range(0, 3), r.Range(0, 3)}
+		}
+	}
+	var out []string
+	var at []int
+	sync, changed := 0, false
+	if r.Chance(1, 2) {
+		change() // responses configured from the start
+		out = append(out, text())
+	}
+	for _, o := range hist {
+		switch {
+		case strings.HasPrefix(o, "cm~"):
+			base = o[3:]
+			if r.Chance(1, 2) {
+				change()
+				changed = true
+			}
+			out = append(out, text())
+		case o == "sync":
+			if !changed && sync > 0 && r.Chance(1, 3) {
+				change()
+				changed = true
+				out = append(out, text())
+			}
+			if changed {
+				at = append(at, sync)
+			}
+			out = append(out, o)
+			sync++
+			changed = false
+		default:
+			out = append(out, o)
+		}
+	}
+	return out, at
+}
+
 // c12worldGen: a random history; the twin is run once to learn what every reconcile writes, then a
 // fault is put on one reconcile (a file the reconcile writes, the reload, the admin socket), injected
 // once or twice, followed by two fault-free retries
@@ -1721,13 +1986,20 @@ func c12worldGen(j *c12jobs, r *gen.Rng, count int) {
 		cfg.Classes = false
 		cfg.MaxBatches = 4
 		hist := world.NewGen(rr.Fork(), cfg).History()
+		var respAt []int
+		if rr.Chance(2, 3) {
+			hist, respAt = c12addResponses(rr.Fork(), hist)
+		}
 		j.add(func() c12res {
 			dry := c12worldRun(shards, nil, hist, false)
 			if dry.fail != "" || len(dry.steps) == 0 {
 				return c12res{}
 			}
-			// pick the reconcile and the fault
+			// pick the reconcile (often one that sees changed custom responses) and the fault
 			k := rr.Intn(len(dry.steps))
+			if len(respAt) > 0 && rr.Chance(1, 2) {
+				k = gen.Pick(rr, respAt)
+			}
 			st := dry.steps[k]
 			var cands []string
 			seen := map[int]bool{}
@@ -1803,6 +2075,11 @@ func c12worldGen(j *c12jobs, r *gen.Rng, count int) {
 				kk = kk[:2]
 			}
 			stats = append(stats, "world_fault_"+kk)
+			for _, a := range respAt {
+				if a == k {
+					stats = append(stats, "world_fault_on_response_change")
+				}
+			}
 			if res.tf == "diff" {
 				stats = append(stats, "world_twin_differs_from_fresh")
 			}
